@@ -4,7 +4,7 @@ import refmodel as R, cmpfam as F, elayer as E, glayer
 
 LEVEL = "proof"
 SUBSETS = [["Hash"], ["PartialEq", "Eq", "Hash"], ["PartialEq", "Eq", "PartialOrd", "Ord", "Hash"], ["PartialEq", "Hash"]]
-G_UNITS = {"cmp_flags": ["CompareOp::is_effects_to", "HelperAttributesForCompareOp::is_ignore"], "cmp_select": ["build_hash_expr", "ItemSourceKind::self_of"]}
+G_UNITS = {"cmp_flags": ["CompareOp::is_effects_to", "HelperAttributesForCompareOp::is_ignore"], "cmp_select": ["build_hash_expr", "ItemSourceKind::self_of"], "cmp_bodies": ["build_hash_body", "build_compare_op"], "kinds": ["HelperAttributeKinds::is_match_cmp_attr", "HelperAttributesForCompareOp::from_attrs"]}
 
 
 def programs(ctx):
